@@ -40,23 +40,23 @@ var commonAssumptions = []string{
 
 var properties = []Property{
 	{ID: "C01", Title: "expressions evaluate to the defined value", Level: "other",
-		Rules:       []string{"R-OPMAP", "R-OPTABLE", "R-DIVGUARD", "R-UNARY", "R-MATCHCELLS", "R-MEMBERSHIP", "R-LOGICCELLS", "R-CONSTDEDUP", "R-SCRIPTINDEX", "R-FOLDRESET"},
-		Explanation: "Static table extraction over the type-checked AST: the compiler's operator→opcode map and every cell of the VM's five operator tables (Go operator, operand order, result type, sibling coverage, singleton pushes, division guard) are compared with the tables the language definition gives. Cell-level rules add the unary operators, the regexp-match cells, membership (`in` visits every element and compares type and printed form), the && / || cells, the constant pool's merge condition and the optimizer's window reset.",
+		Rules:       []string{"R-OPMAP", "R-OPTABLE", "R-DIVGUARD", "R-UNARY", "R-MATCHCELLS", "R-MEMBERSHIP", "R-LOGICCELLS", "R-CONSTDEDUP", "R-SCRIPTINDEX", "R-FOLDRESET", "R-MATCHONCE", "R-FOLDARITY"},
+		Explanation: "Static table extraction over the type-checked AST: the compiler's operator→opcode map and every cell of the VM's five operator tables (Go operator, operand order, result type, sibling coverage, singleton pushes, division guard) are compared with the tables the language definition gives. Cell-level rules add the unary operators, the regexp-match cells, membership (`in` visits every element and compares type and printed form), the && / || cells, the constant pool's merge condition and the optimizer's window reset. The regexp matcher tries its pattern at least once for every subject, and the folder only rewrites when as many constants are pending as the operator has operands.",
 		NotDecided:  "values Go arithmetic produces; cells computed by calls other than power/substring (regexp match); dispatch on operand types beyond C05's clause; nesting; integer % by zero (a recovered panic, which the property allows as an error).",
 		Assumptions: commonAssumptions},
 	{ID: "C02", Title: "control flow", Level: "other",
-		Rules:       []string{"R-PATCHALL", "R-JUMPSET", "R-HANDLERS", "R-LOOPHEAD", "R-ITERNEXT", "R-MEMBERSHIP", "R-SWITCHDEFAULT", "R-NOMUT"},
-		Explanation: "SSA path analysis of the compiler: every placeholder jump is back-patched on every successful path, loops jump back to a head recorded before the re-executed code, the jump opcode set is the same in VM/optimizer/compiler, every opcode has a handler and the return opcode leaves the interpreter. The foreach handler advances its cursor once per cycle, membership loops have no early exit on a non-match, and a switch's default arm is compiled after every case.",
+		Rules:       []string{"R-PATCHALL", "R-JUMPSET", "R-HANDLERS", "R-LOOPHEAD", "R-ITERNEXT", "R-MEMBERSHIP", "R-SWITCHDEFAULT", "R-NOMUT", "R-JOINPH", "R-EMITSET", "R-LOOPSTACK", "R-SWITCHONCE"},
+		Explanation: "SSA path analysis of the compiler: every placeholder jump is back-patched on every successful path, loops jump back to a head recorded before the re-executed code, the jump opcode set is the same in VM/optimizer/compiler, every opcode has a handler and the return opcode leaves the interpreter. The foreach handler advances its cursor once per cycle, membership loops have no early exit on a non-match, and a switch's default arm is compiled after every case. Each construct is translated with the opcodes of its scheme only (closed table), forward labels are outside every folding window. Known findings: a foreach body can bury the iterator it keeps on the stack; the switch subject is translated once per arm.",
 		NotDecided:  "that patched offsets are the right ones (values computed while Prepare runs), order of arms, element order of foreach.",
 		Assumptions: commonAssumptions},
 	{ID: "C03", Title: "optimizer transparency", Level: "other",
-		Rules:       []string{"R-JOINPH", "R-FOLDAGREE", "R-JUMPSET", "R-EMITLEN", "R-NOINJECT", "R-FLAGONLY", "R-FOLDRESET", "R-OPTCLOSED"},
-		Explanation: "Structural soundness conditions of the peephole optimizer: every forward label is outside every folding window (placeholder or preceded by an unconditional jump) and the folder resets its window on unnamed opcodes; jump sets agree between VM, NOP removal, dead-code pass and compiler; operand presence agrees; the optimizer switch is not script-visible. The optimizer performs exactly the enumerated rewrites (a new one is reported as not decided).",
+		Rules:       []string{"R-JOINPH", "R-FOLDAGREE", "R-JUMPSET", "R-EMITLEN", "R-NOINJECT", "R-FLAGONLY", "R-FOLDRESET", "R-OPTCLOSED", "R-FOLDARITY"},
+		Explanation: "Structural soundness conditions of the peephole optimizer: every forward label is outside every folding window (placeholder or preceded by an unconditional jump) and the folder resets its window on unnamed opcodes; jump sets agree between VM, NOP removal, dead-code pass and compiler; operand presence agrees; the optimizer switch is not script-visible. The optimizer performs exactly the enumerated rewrites (a new one is reported as not decided). Every write of the folder needs as many pending constants as the operator has operands.",
 		NotDecided:  "observational equivalence of optimized and unoptimized programs in general.",
 		Assumptions: commonAssumptions},
 	{ID: "C13", Title: "invalid scripts are rejected", Level: "other",
-		Rules:       []string{"R-NILERR", "R-ERRPROP", "R-BLOCKOPEN", "R-TOPSTOP", "R-TERNGUARD", "R-LOCALGUARD", "R-EOFSENTINEL", "R-NAMETOKEN", "R-FUNCFLAG", "R-SEENTOKEN"},
-		Explanation: "SSA dataflow over the parser and compiler: a parse function returns nil only after an error was recorded (must-dataflow with callee summaries, through the registered parselet tables), Parse turns a non-empty error list into an error, every error-valued call has its error looked at and never replaced by nil, blocks are parsed only after '{' was demanded, the top-level loop stops only at end of input, nested ternaries and `local` outside functions are rejected. Names are only taken from tokens tested to be identifiers, the in-function flag is cleared on every exit, and the parser never steps over a token it has not looked at (identified beforehand as one kind on every path, or examined afterwards).",
+		Rules:       []string{"R-NILERR", "R-ERRPROP", "R-BLOCKOPEN", "R-TOPSTOP", "R-TERNGUARD", "R-LOCALGUARD", "R-EOFSENTINEL", "R-NAMETOKEN", "R-FUNCFLAG", "R-SEENTOKEN", "R-VISITALL", "R-ONEDEFAULT", "R-TEXTOFNODE"},
+		Explanation: "SSA dataflow over the parser and compiler: a parse function returns nil only after an error was recorded (must-dataflow with callee summaries, through the registered parselet tables), Parse turns a non-empty error list into an error, every error-valued call has its error looked at and never replaced by nil, blocks are parsed only after '{' was demanded, the top-level loop stops only at end of input, nested ternaries and `local` outside functions are rejected. Names are only taken from tokens tested to be identifiers, the in-function flag is cleared on every exit, and the parser never steps over a token it has not looked at (identified beforehand as one kind on every path, or examined afterwards). Compiler loops over a node's children are left early only with an error, a switch cannot end up with two default arms, the printed form of a node stands for it only where the node is an identifier, and a ternary's condition is examined for a ternary.",
 		NotDecided:  "that each individual syntax check is the right check (needs a grammar as oracle).",
 		Assumptions: commonAssumptions},
 	{ID: "C04", Title: "host object fields", Level: "other",
@@ -65,7 +65,7 @@ var properties = []Property{
 		NotDecided:  "lossless conversion per kind, order and length of arrays, nested maps: values produced by reflection at run time.",
 		Assumptions: commonAssumptions},
 	{ID: "C05", Title: "one notion of truth", Level: "other",
-		Rules:       []string{"R-IDENTITY", "R-LOGICDISPATCH", "R-TRUTHDEF", "R-TRUTHSITES", "R-RUNEXEC", "R-LOGICCELLS", "R-UNARY", "R-OPTCLOSED", "R-CONDDIRECT"},
+		Rules:       []string{"R-IDENTITY", "R-LOGICDISPATCH", "R-TRUTHDEF", "R-TRUTHSITES", "R-RUNEXEC", "R-LOGICCELLS", "R-UNARY", "R-OPTCLOSED", "R-CONDDIRECT", "R-EMITSET"},
 		Explanation: "No identity comparison of objects anywhere in the library (SSA; matcher self-tested on a built-in example), && and || are reachable for every operand type pair (clause order of the dispatcher against the extracted tables), every True() body is the language's definition, consumers of truth call True(), and Run is True() of Execute's object with Execute's error. The compiler translates conditions and arms of if / while / ternary / switch exactly as the node's own fields and never writes into the tree; `!` is decided by the operand's type; the optimizer's rewrites are the enumerated ones.",
 		NotDecided:  "the values of comparisons themselves.",
 		Assumptions: commonAssumptions},
@@ -116,8 +116,8 @@ var properties = []Property{
 		NotDecided:  "the '.' rewrite of field access, postfix ++/-- being separate statements, what the compiler does with the tree.",
 		Assumptions: commonAssumptions},
 	{ID: "C14", Title: "literals and layout", Level: "other",
-		Rules:       []string{"R-LEXPROGRESS", "R-EOFSENTINEL", "R-ESCAPES", "R-CONSTDEDUP", "R-DIVCONTEXT", "R-COMMENTCTX", "R-NUMBASE", "R-TOKENPROGRESS"},
-		Explanation: "Narrow claim. Tokenisation terminates for every input: the advance function moves forward unconditionally, every lexer loop advances on every cycle and has an exit taken at the end-of-input sentinel (loop conditions are evaluated with the sentinel substituted, predicates included), and the lexer does not recurse. End of input is decided by position, not by a character value. The string reader's escape table is the language's. Every return of NextToken has consumed a character (readers are entered under their own loop predicate); `//` starts a comment independent of the previous token; `/` divides exactly after an operand-ending token; integer and decimal text is read in base 10 with 64 bits; the constant pool keeps literals of different kinds apart.",
+		Rules:       []string{"R-LEXPROGRESS", "R-EOFSENTINEL", "R-ESCAPES", "R-CONSTDEDUP", "R-DIVCONTEXT", "R-COMMENTCTX", "R-NUMBASE", "R-TOKENPROGRESS", "R-LEXINPUT", "R-CUTSET"},
+		Explanation: "Narrow claim. Tokenisation terminates for every input: the advance function moves forward unconditionally, every lexer loop advances on every cycle and has an exit taken at the end-of-input sentinel (loop conditions are evaluated with the sentinel substituted, predicates included), and the lexer does not recurse. End of input is decided by position, not by a character value. The string reader's escape table is the language's. Every return of NextToken has consumed a character (readers are entered under their own loop predicate); `//` starts a comment independent of the previous token; `/` divides exactly after an operand-ending token; integer and decimal text is read in base 10 with 64 bits; the constant pool keeps literals of different kinds apart. The lexer's buffer is the script text unmodified; Trim calls have constant cutsets.",
 		NotDecided:  "what regexp literals denote character by character, and that layout and comments never change the token sequence in general: character-level value semantics.",
 		Assumptions: commonAssumptions},
 	{ID: "C16", Title: "containers", Level: "other",
@@ -131,18 +131,18 @@ var properties = []Property{
 		NotDecided:  "nothing structural remains; what remains is values (and now()/time()/getenv(), which the property excludes).",
 		Assumptions: commonAssumptions},
 	{ID: "C17", Title: "built-in contracts", Level: "other",
-		Rules:       []string{"R-ARGGUARD", "R-PUREARGS", "R-NUMORDER", "R-LENKIND", "R-TIMEFIELDS", "R-USEBEFORECHECK", "R-JOINSHAPE", "R-NUMBASE"},
-		Explanation: "Narrow claim. Totality on wrong arity/type: every args[k] and every unchecked assertion of an argument is guarded by a dominating length / Type() test (abstract interpretation over length sets and type facts, with helper functions checked at their call sites). Inputs unchanged: no built-in stores into, sorts in place or mutates anything reachable from its arguments. min/max/between: no ordering by printed form is reachable when both arguments are numbers, the numeric helper computes left < right, min returns the smaller and max the larger argument, between is false exactly when v < lo or hi < v. join only concatenates element text and separator, places separators by position and does not post-process its result; int/float read base 10 / 64 bits; the time built-ins call the time method of the same name; len counts runes/elements.",
+		Rules:       []string{"R-ARGGUARD", "R-PUREARGS", "R-NUMORDER", "R-LENKIND", "R-TIMEFIELDS", "R-USEBEFORECHECK", "R-JOINSHAPE", "R-NUMBASE", "R-MATCHONCE", "R-CUTSET"},
+		Explanation: "Narrow claim. Totality on wrong arity/type: every args[k] and every unchecked assertion of an argument is guarded by a dominating length / Type() test (abstract interpretation over length sets and type facts, with helper functions checked at their call sites). Inputs unchanged: no built-in stores into, sorts in place or mutates anything reachable from its arguments. min/max/between: no ordering by printed form is reachable when both arguments are numbers, the numeric helper computes left < right, min returns the smaller and max the larger argument, between is false exactly when v < lo or hi < v. join only concatenates element text and separator, places separators by position and does not post-process its result; int/float read base 10 / 64 bits; the time built-ins call the time method of the same name; len counts runes/elements. The time is decomposed in $TZ or UTC on every path; the matcher tries its pattern at least once; Trim calls have constant cutsets.",
 		NotDecided:  "every value-level contract: split and the join/split round trip as a whole, sort's permutation property, conversions, string helpers.",
 		Assumptions: commonAssumptions},
 	{ID: "C20", Title: "front ends", Level: "other",
-		Rules:       []string{"R-RUNEXEC", "R-ENVSHARE", "R-VOIDPUSH", "R-FLAGONLY", "R-NOINJECT", "R-CTXFLOW", "R-DRIVER", "R-POPORDER", "R-SCOPERESTORE", "R-LOCKSET", "R-FMTCONST"},
-		Explanation: "Narrow claim. Run is True() of Execute's object with Execute's error; the API methods pass their own arguments to the one environment the machine was built on; call results are pushed exactly when not void; the NoOptimize flag guards only the optimizer switch; the library injects no variables; the context flows SetContext → Prepare → VM; the command-line driver sets the context before Prepare, plumbs -no-optimizer and the decoded JSON document, reports type/value/truth of Execute's result and recovers panics. Only Prepare and Run take the evaluator's mutex (a host function may call the other methods during Run); printf-style calls have constant formats, so a result's text is never re-interpreted; call arguments are popped in reverse push order.",
+		Rules:       []string{"R-RUNEXEC", "R-ENVSHARE", "R-VOIDPUSH", "R-FLAGONLY", "R-NOINJECT", "R-CTXFLOW", "R-DRIVER", "R-POPORDER", "R-SCOPERESTORE", "R-LOCKSET", "R-FMTCONST", "R-SWITCHONCE"},
+		Explanation: "Narrow claim. Run is True() of Execute's object with Execute's error; the API methods pass their own arguments to the one environment the machine was built on; call results are pushed exactly when not void; the NoOptimize flag guards only the optimizer switch; the library injects no variables; the context flows SetContext → Prepare → VM; the command-line driver sets the context before Prepare, plumbs -no-optimizer and the decoded JSON document, reports type/value/truth of Execute's result and recovers panics. Only Prepare and Run take the evaluator's mutex (a host function may call the other methods during Run); printf-style calls have constant formats, so a result's text is never re-interpreted; call arguments are popped in reverse push order. Known finding: the subject of a switch is translated once per arm, so a host function used as subject is called several times.",
 		NotDecided:  "argument order of host calls (index arithmetic over run-time counts), what the driver prints character by character, the lex/parse sub-commands' output.",
 		Assumptions: commonAssumptions},
 	{ID: "C18", Title: "well-formed code", Level: "other",
-		Rules:       []string{"R-EMITLEN", "R-HANDLERS", "R-PATCHALL", "R-JOINPH", "R-JUMPSET", "R-OPBOUNDARY", "R-NARROW", "R-CONSTDEDUP", "R-FOLDRESET", "R-BODYSTATE", "R-OPTCLOSED", "R-CONSTREF"},
-		Explanation: "Emitter-side structural checks: operand presence agrees with code.Length at every emit site and handler, every opcode is handled, every placeholder is patched, every forward label is followed by an instruction, jump sets agree, opcodes are only read at instruction pointers, 16-bit operands are range-checked. Compiler state reset for a function body is restored after it (so the implicit return is decided on the body just compiled), the optimizer removes exactly NOPs, and its constant window is reset, not trimmed. Every instruction whose handler indexes the constant table is emitted with the index the constant pool returned.",
-		NotDecided:  "stack balance and jump targets of a given emitted program (properties of Prepare's output).",
+		Rules:       []string{"R-EMITLEN", "R-HANDLERS", "R-PATCHALL", "R-JOINPH", "R-JUMPSET", "R-OPBOUNDARY", "R-NARROW", "R-CONSTDEDUP", "R-FOLDRESET", "R-BODYSTATE", "R-OPTCLOSED", "R-CONSTREF", "R-COUNTED", "R-EMITSET", "R-VALUEPOS", "R-LOOPSTACK"},
+		Explanation: "Emitter-side structural checks: operand presence agrees with code.Length at every emit site and handler, every opcode is handled, every placeholder is patched, every forward label is followed by an instruction, jump sets agree, opcodes are only read at instruction pointers, 16-bit operands are range-checked. Compiler state reset for a function body is restored after it (so the implicit return is decided on the body just compiled), the optimizer removes exactly NOPs, and its constant window is reset, not trimmed. Every instruction whose handler indexes the constant table is emitted with the index the constant pool returned. Counted instructions take their count from the field whose loop pushes exactly that many operands; each construct emits only the opcodes of its scheme. Known findings: value-less constructs (assignment, compound assignment, ++/--) are accepted as operands and underflow the stack at run time; a foreach body can bury its iterator.",
+		NotDecided:  "stack balance on every path and jump targets of a given emitted program (properties of Prepare's output); R-VALUEPOS and R-LOOPSTACK decide two necessary conditions of stack discipline only.",
 		Assumptions: commonAssumptions},
 }
